@@ -188,19 +188,7 @@ def run(ctx):
 
         # R6 / R7 for the concatenation formats
         if short in CONCAT_FORMATS:
-            lo = frame_parser(prog.format_op(short, "load_one"))
-            ys = [x for s in floop.body for x in ast.walk(s) if isinstance(x, ast.Yield)]
-            okk = len(ys) == 1 and isinstance(ys[0].value, ast.Call) and any(cs.node is ys[0].value and lo in cs.callees for cs in g.calls)
-            if okk:
-                # all of load_many's own parameters are passed through
-                b, e, okb = bind_call(ys[0].value, lo)
-                missing = [p for p in g.posparams if p in lo.posparams and not (isinstance(b.get(p), ast.Name) and b[p].id == p)]
-                if missing:
-                    ctx.violate("R6", f"{short}.load_many does not pass {missing} through to load_one", g, ys[0])
-                else:
-                    ctx.ok("R6", f"{short}.load_many yields the module's own load_one(lit, ...) unmodified", f"{g.module.relpath}:{ys[0].lineno}")
-            else:
-                ctx.violate("R6", f"{short}.load_many does not yield the unmodified result of the module's load_one", g, floop, construct="yield of load_one")
+            check_concat_yields(ctx, "R6", short, g, prog.format_op(short, "load_one"), floop)
             # R7: normal ends
             for n in [x for s in [floop] for x in ast.walk(s) if isinstance(x, (ast.Return, ast.Break))] + [x for x in g.own_nodes() if isinstance(x, ast.Return) and not any(x is y for y in ast.walk(floop))]:
                 cur, in_handler, conds = n, False, []
@@ -480,6 +468,73 @@ LOOKAHEAD_FEEDS = {
 }
 
 
+def check_concat_yields(ctx, rid, short, g, lo1, floop):
+    """A frame loop over concatenated one-frame files yields exactly what the format's frame parser returns, frame by
+    frame, and hands its own arguments on: the generator is evaluated to its end on a model line iterator with the frame
+    parser replaced by a recorder that takes one line per frame and returns a marked object."""
+    from ..accessors import AccessorEval, Raised, Rec
+    from ..symarr import NotSymbolic
+
+    prog = ctx.prog
+    licls = prog.cls("iodata.utils.LineIterator")
+    parsers = {lo1, frame_parser(lo1)}
+    verdicts = []
+    for end_signal in ("StopIteration", "LoadError"):
+        lit = Rec(licls, filename="FILE", fh=iter(["frame 0\n", "frame 1\n"]), lineno=0, stack=[])
+        frames, calls = [], []
+
+        def parse(a, k, lit=lit, frames=frames, calls=calls, end_signal=end_signal, which=None):
+            calls.append((which, list(a), dict(k)))
+            st = lit.fields["stack"]
+            if st:
+                st.pop()
+            else:
+                try:
+                    next(lit.fields["fh"])
+                except StopIteration:
+                    raise Raised(end_signal) from None
+            lit.fields["lineno"] += 1
+            frames.append({"frame": len(frames)})
+            return frames[-1]
+
+        ev = AccessorEval(prog, licls, limit=4000)
+        ev.module = g.module
+        ev.stubs = {p_.qualname: (lambda a, k, p_=p_: parse(a, k, which=p_)) for p_ in parsers}
+        extra = {p_: f"<{p_}>" for p_ in g.posparams[1:]}
+        ev.collect_yields = []
+        try:
+            ev.run_free(g, [lit], dict(extra))
+        except Raised:
+            continue  # how the sequence ends (and what is swallowed) is decided by R2 / R3 / R7
+        except NotSymbolic as exc:
+            raise AnalysisError(f"{g.qualname} is outside the evaluation whitelist: {exc}") from exc
+        ys = list(ev.collect_yields)
+        bad = None
+        if len(ys) != len(frames) or any(not (isinstance(y, dict) and y == {"frame": i}) for i, y in enumerate(ys)):
+            bad = f"the frame parser returned {len(frames)} frame(s), the generator yields {[y if not isinstance(y, dict) else y for y in ys]!r}"[:200]
+        elif any(f_ != {"frame": i} for i, f_ in enumerate(frames)):
+            bad = f"the frames are modified before they are yielded: {frames!r}"[:200]
+        elif len(frames) != 2:
+            bad = f"{len(frames)} frame(s) are parsed from an input of two"
+        else:
+            for which, a, k in calls[:2]:
+                b = dict(zip(which.posparams, a))
+                b.update(k)
+                if b.get(which.posparams[0]) is not lit:
+                    bad = "the frame parser is not given the line iterator of the generator"
+                for p_, v in extra.items():
+                    if p_ in which.posparams and b.get(p_) != v:
+                        bad = bad or f"the argument `{p_}` of load_many does not reach the frame parser (it receives {b.get(p_)!r})"
+        verdicts.append(bad)
+    if not verdicts:
+        raise AnalysisError(f"{g.qualname}: the generator does not end normally on a two-frame input with either end signal")
+    bad = next((v for v in verdicts if v), None)
+    if bad:
+        ctx.violate(rid, f"{short}.load_many does not yield the unmodified result of the module's load_one: {bad}", g, floop, construct="yield of load_one")
+    else:
+        ctx.ok(rid, f"{short}.load_many yields the module's own load_one(lit, ...) unmodified (evaluated on two frames; its arguments are passed through)", f"{g.module.relpath}:{floop.lineno}")
+
+
 def frame_parser(lo):
     """The frame parser of a format: load_one itself, or the one function load_one hands its arguments to unchanged
     (`def load_one(lit, ...): return _load_frame(lit, ...)`), which load_many may then call directly."""
@@ -509,13 +564,18 @@ def lookahead_outcomes(prog):
         if lo1 is None:
             continue
         parsers = {lo1, frame_parser(lo1)}
-        if not any(isinstance(x, ast.Yield) and isinstance(x.value, ast.Call) and any(cs.node is x.value and parsers & set(cs.callees) for cs in lm.calls) for x in lm.own_nodes()):
+        if not any(parsers & set(cs.callees) for cs in lm.calls):
             continue
         rows = []
         for label, feed in LOOKAHEAD_FEEDS.items():
             lit = Rec(licls, filename="FILE", fh=iter(list(feed)), lineno=0, stack=[])
             ev = AccessorEval(prog, licls, limit=2000)
             args = [lit] + [None] * (len(lm.posparams) - 1)
+
+            def reached(a, k):
+                raise Yielded(None, None)  # the look-ahead is over once the frame parser is called
+
+            ev.stubs = {p_.qualname: reached for p_ in parsers}
             try:
                 ev.run_free(lm, args, {})
                 outcome = "return"
